@@ -46,6 +46,9 @@ typedef struct ctx {
     double *fbase; /* fault-free decoded doubles */
     int ftype;     /* adaptive encoding type or float precision */
     varintAdaptiveDataStats stats0;
+    varintPFORMeta pm0; /* fault-free PFOR analysis */
+    unsigned pw0;
+    varintDictStats ds0; /* fault-free dictionary statistics */
 } ctx;
 
 static void *xmalloc(size_t n) {
@@ -131,14 +134,6 @@ static int reported_failure(ctx *c, const char *what) {
     return 0;
 }
 
-static unsigned bytes_for(uint64_t v) {
-    unsigned w = 1;
-    while (v >>= 8) {
-        w++;
-    }
-    return w;
-}
-
 static int cmp_u64(const void *a, const void *b) {
     uint64_t x = *(const uint64_t *)a, y = *(const uint64_t *)b;
     return x < y ? -1 : x > y;
@@ -164,6 +159,17 @@ static size_t uniq_sorted(const uint64_t *v, size_t n, uint64_t **out) {
 static uint8_t *padded_copy(const uint8_t *p, size_t len, size_t pad) {
     uint8_t *c = (uint8_t *)xcalloc(len + pad);
     memcpy(c, p, len);
+    return c;
+}
+
+/* exact-size copy (vf_exact_alloc: an ASan redzone directly behind the last
+ * byte), i.e. the block a caller keeps who stores exactly the length an
+ * encoder reported; release with vf_exact_free */
+static uint8_t *exact_copy(const uint8_t *p, size_t len) {
+    uint8_t *c = (uint8_t *)vf_exact_alloc(len);
+    if (len) {
+        memcpy(c, p, len);
+    }
     return c;
 }
 
